@@ -127,10 +127,10 @@ def run(ctx: Ctx) -> None:
             feats.append({"name": f"c{i}", "declared": declared, "strict": strict})
         fobjs = []
         for f in feats:
-            opts: Dict[str, Any] = {}
+            fopts: Any = {}
             if f["strict"] is not None:
-                opts["strict_type_enforcement"] = f["strict"]
-            fobjs.append(Feature(f["name"], options=opts, data_type=DataType[f["declared"]] if f["declared"] else None))
+                fopts = {"strict_type_enforcement": f["strict"]} if ctx.rng.random() < 0.5 else Options(context={"strict_type_enforcement": f["strict"]})
+            fobjs.append(Feature(f["name"], options=fopts, data_type=DataType[f["declared"]] if f["declared"] else None))
         fs = FeatureSet()
         for fo in fobjs:
             fs.add(fo)
@@ -186,9 +186,9 @@ def run(ctx: Ctx) -> None:
     pairs = [(d, a) for d in names for a in names]
     if ctx.quick:
         # full matrix on the lenient source, sampled for the two strict sources
-        plan = [(d, a, "lenient") for d, a in pairs] + [(d, a, ctx.rng.choice(["option", "api"])) for d, a in pairs if doc_lenient(d, a) or ctx.rng.random() < 0.15]
+        plan = [(d, a, "lenient") for d, a in pairs] + [(d, a, ctx.rng.choice(["option", "api", "option_context"])) for d, a in pairs if doc_lenient(d, a) or ctx.rng.random() < 0.15]
     else:
-        plan = [(d, a, s) for d, a in pairs for s in ("lenient", "option", "api")]
+        plan = [(d, a, s) for d, a in pairs for s in ("lenient", "option", "api", "option_context")]
     for d, a, src in plan:
         e2e_cases.append({"declared": d, "actual": a, "source": src, "fw": "pa", "mix": ctx.rng.choice([False, True])})
     # unsupported produced types and undeclared features
@@ -211,7 +211,9 @@ def run(ctx: Ctx) -> None:
         if c["mix"]:
             colspec["u"] = pa.string()  # an untyped sibling in the same group
         root = make_root(colspec, fw)
-        opts = {"strict_type_enforcement": True} if c["source"] == "option" else {}
+        opts: Any = {"strict_type_enforcement": True} if c["source"] == "option" else {}
+        if c["source"] == "option_context":
+            opts = Options(context={"strict_type_enforcement": True})  # an option is an option wherever it is kept
         feats: List[Any] = [Feature("x", options=opts, data_type=DataType[c["declared"]] if c["declared"] else None)]
         if c["mix"]:
             feats.append(Feature("u"))
@@ -231,7 +233,7 @@ def run(ctx: Ctx) -> None:
         if c["declared"] is None or "actual_arrow" in c:
             exp = "ok"
         else:
-            okk = doc_strict(c["declared"], c["actual"]) if c["source"] in ("option", "api") else doc_lenient(c["declared"], c["actual"])
+            okk = doc_strict(c["declared"], c["actual"]) if c["source"] in ("option", "api", "option_context") else doc_lenient(c["declared"], c["actual"])
             exp = "ok" if okk else "mismatch"
         nontriv = c["declared"] is not None and "actual_arrow" not in c
         ctx.case("e2e", c, nontriv, fw=c["fw"], source=c["source"], expected=exp)
@@ -240,7 +242,7 @@ def run(ctx: Ctx) -> None:
             ctx.violation("e2e", c, f"run_all outcome {impl!r}, property says {exp!r}", impl, exp, finding_class=cls)
         if c["fw"] == "pa":
             lean_reqs.append({"op": "C17.validate", "cols": [{"name": n_, "arrow": str(t_)} for n_, t_ in colspec.items()],
-                              "feats": [{"name": "x", "declared": c["declared"], "strict": True if c["source"] == "option" else None}] + ([{"name": "u", "declared": None, "strict": None}] if c["mix"] else []),
+                              "feats": [{"name": "x", "declared": c["declared"], "strict": True if c["source"] in ("option", "option_context") else None}] + ([{"name": "u", "declared": None, "strict": None}] if c["mix"] else []),
                               "apiStrict": c["source"] == "api"})  # fmt: skip
             lean_idx.append((k, impl))
     outs = ctx.lean.batch(lean_reqs)
